@@ -784,6 +784,28 @@ class QueryPlanner:
         # clear subselect
         update_command.from_select = None
 
+        # the command runs in the integration of the table (as the condition of 'delete' does):
+        #   sub-selects that can't run there are planned on their own,
+        #   the name of the integration is cut from the names of its columns and tables
+        try:
+            main_integration, _ = self.resolve_database_table(query.table)
+        except PlanningException:
+            # no database is known for the table: the command is passed as it is
+            main_integration = None
+
+        if main_integration is not None:
+            is_api_db = self.integrations.get(main_integration, {}).get('class_type') == 'api'
+            find_selects = self.get_nested_selects_plan_fnc(main_integration, force=is_api_db)
+
+            if update_command.update_columns is not None:
+                for name, value in list(update_command.update_columns.items()):
+                    value = query_traversal(value, find_selects) or value
+                    self.prepare_integration_select(main_integration, value)
+                    update_command.update_columns[name] = value
+            if update_command.where is not None:
+                update_command.where = query_traversal(update_command.where, find_selects) or update_command.where
+                self.prepare_integration_select(main_integration, update_command.where)
+
         table = query.table
         self.plan.add_step(UpdateToTable(
             table=table,
